@@ -10,6 +10,9 @@
     op 4  via key [ oracle ]             Remove (0) / RemoveFromCurrentEpoch (1)       -> 6=error class
     op 5                                 ClearCache
     op 6  cold [ keys ] [ oracle ]       GetBulkFromEpoch                               -> [8=[ k v k v .. ]]
+    op 7                                 RangeKeys (handler collecting every pair)      -> [9=[ k v k v .. ] sorted by key]
+    op 8  [ oracle ]                     DestroyUnit                                    -> 10=error class 12=entries left in the cache
+    op 9  [ oracle ]                     Close                                          -> 11=error class 12=entries left in the cache
     every op                                                                            -> 7=[ persister's value|- for each key of the alphabet ]
 
     [cold] = ClearCache is called first (so that the read certainly misses the cache).
@@ -25,7 +28,15 @@
       the oracle's first bit is false, or the read is cold.
     - 8 only when no read of the bulk can fail, or the bulk is cold over distinct keys
       (every key then misses and consumes exactly one oracle bit).
-    - never the cache content, never which layer served a read.
+    - 9 only over a memorydb persister (pkind 0): a LevelDB persister's RangeKeys visits what has been
+      FLUSHED so far (flush timing is C09/C10's subject); over memorydb every acknowledged write is
+      written through, so RangeKeys must visit exactly the map of acknowledged writes.
+    - 12 (how many entries the cache holds right after DestroyUnit / Close: the model's cache is empty
+      then, whatever its policy) is the one observable of the cache content, and only at these steps.
+    - never the cache content otherwise, never which layer served a read.
+    A successful Close / DestroyUnit in the middle of a history is generated only over memorydb (whose
+    Close does nothing and whose Destroy leaves an empty, usable map); over LevelDB only a failing
+    one (the stub fails before reaching the persister) or a successful DestroyUnit as last operation.
     900=n1 (model-only event): a bulk read omitted a pair that the persister holds, with a
     nil error (the injected read error was swallowed). *)
 From Coq Require Import List NArith ZArith Bool.
@@ -35,6 +46,7 @@ Open Scope N_scope.
 
 Record wstate : Type := {
   w_cap   : nat;
+  w_pkind : N;
   w_cache : pstore;
   w_pers  : pstore;
   w_keys  : list bytes
@@ -42,37 +54,41 @@ Record wstate : Type := {
 
 Definition unit_init (cfg : list garg) : option wstate :=
   Some {| w_cap := N.to_nat (arg_N (nth_arg cfg 1));
+          w_pkind := arg_N (nth_arg cfg 3);
           w_cache := [];
           w_pers := [];
           w_keys := map arg_B (arg_L (nth_arg cfg 5)) |}.
 
 Definition arg_oracle (a : garg) : oracle := map arg_bool (arg_L a).
 
-Definition decode_op (code : N) (args : list garg) : option (bool (*cold*) * uop) :=
+Definition decode_op (code : N) (args : list garg) : option (bool (*cold*) * lop) :=
   match code with
   | 1 => let via := arg_N (nth_arg args 0) in
          let k := arg_B (nth_arg args 1) in
          let v := arg_B (nth_arg args 2) in
          let o := arg_oracle (nth_arg args 3) in
-         Some (false, if via =? 0 then OPut k v o else OPutInEpoch k v 0 o)
+         Some (false, LData (if via =? 0 then OPut k v o else OPutInEpoch k v 0 o))
   | 2 => let via := arg_N (nth_arg args 0) in
          let cold := arg_bool (nth_arg args 1) in
          let k := arg_B (nth_arg args 2) in
          let o := arg_oracle (nth_arg args 3) in
-         Some (cold, if via =? 0 then OGet k o else if via =? 1 then OGetFromEpoch k 0 o else OSearchFirst k o)
+         Some (cold, LData (if via =? 0 then OGet k o else if via =? 1 then OGetFromEpoch k 0 o else OSearchFirst k o))
   | 3 => let cold := arg_bool (nth_arg args 0) in
          let k := arg_B (nth_arg args 1) in
          let o := arg_oracle (nth_arg args 2) in
-         Some (cold, OHas k o)
+         Some (cold, LData (OHas k o))
   | 4 => let via := arg_N (nth_arg args 0) in
          let k := arg_B (nth_arg args 1) in
          let o := arg_oracle (nth_arg args 2) in
-         Some (false, if via =? 0 then ORemove k o else ORemoveFromCurrentEpoch k o)
-  | 5 => Some (false, OClearCache)
+         Some (false, LData (if via =? 0 then ORemove k o else ORemoveFromCurrentEpoch k o))
+  | 5 => Some (false, LData OClearCache)
   | 6 => let cold := arg_bool (nth_arg args 0) in
          let ks := map arg_B (arg_L (nth_arg args 1)) in
          let o := arg_oracle (nth_arg args 2) in
-         Some (cold, OBulk ks 0 o)
+         Some (cold, LData (OBulk ks 0 o))
+  | 7 => Some (false, LRangeKeys)
+  | 8 => Some (false, LDestroyUnit (arg_oracle (nth_arg args 0)))
+  | 9 => Some (false, LClose (arg_oracle (nth_arg args 0)))
   | _ => None
   end.
 
@@ -113,6 +129,23 @@ Definition observe (cold : bool) (op : uop) (out : uout) (pers : pstore) : list 
   | _, _ => []
   end.
 
+Fixpoint pinsert (x : bytes * bytes) (l : list (bytes * bytes)) : list (bytes * bytes) :=
+  match l with
+  | [] => [x]
+  | y :: r => match bcmp (fst x) (fst y) with Gt => y :: pinsert x r | _ => x :: l end
+  end.
+Definition psort (l : list (bytes * bytes)) : list (bytes * bytes) := fold_right pinsert [] l.
+
+(** the observables of a life-cycle step; [cache_after] = the model's cache after the step *)
+Definition observe_life (pkind : N) (cold : bool) (op : lop) (out : uout) (pers cache_after : pstore) : list obs :=
+  match op, out with
+  | LData d, _ => observe cold d out pers
+  | LRangeKeys, RRange l => if pkind =? 0 then [(9, g_pairs (psort l))] else []
+  | LDestroyUnit _, RErr e => [(10, g_err e); (12, g_N (N.of_nat (length cache_after)))]
+  | LClose _, RErr e => [(11, g_err e); (12, g_N (N.of_nat (length cache_after)))]
+  | _, _ => []
+  end.
+
 Definition unit_wstep (w : wstate) (code : N) (args : list garg) : wstate * list obs :=
   match decode_op code args with
   | None => (w, [])
@@ -120,9 +153,9 @@ Definition unit_wstep (w : wstate) (code : N) (args : list garg) : wstate * list
       let C := small_cache (w_cap w) in
       let s0 : ustate C := Build_ustate (small_cache (w_cap w)) (w_cache w) (w_pers w) in
       let s1 := if cold then unit_clear_cache C s0 else s0 in
-      let '(s2, out) := unit_step C s1 op in
-      let w' := {| w_cap := w_cap w; w_cache := u_cache s2; w_pers := u_pers s2; w_keys := w_keys w |} in
-      (w', observe cold op out (u_pers s1)
+      let '(s2, out) := life_step C s1 op in
+      let w' := {| w_cap := w_cap w; w_pkind := w_pkind w; w_cache := u_cache s2; w_pers := u_pers s2; w_keys := w_keys w |} in
+      (w', observe_life (w_pkind w) cold op out (u_pers s1) (u_cache s2)
            ++ [(7, GL (map (fun k => g_optB (p_lookup (u_pers s2) k)) (w_keys w)))])
   end.
 
